@@ -10,9 +10,9 @@ for f in ("patch.diff", "demo.py", "notes.md"):
 meta = {"property": prop, "breaks": breaks, "needs": needs, "caught_by": [c.strip() for c in caught.split(";") if c.strip()],
         "confirmed": "scratch worktree of /repo HEAD: demo exits 0 without the patch and 1 with it; full test suite with the patch: 9 failed, 556 passed, 12 skipped (= baseline)",
         "ran": [f"/verif/confirm_seed.sh {dst}", f"/verif/seedtest.sh {dst}/patch.diff {prop}"],
-        "source": "fresh sub-agent (round 2/3: told only which earlier ideas to avoid), property text and a scratch worktree"}
+        "source": f"fresh sub-agent ({tag}: told only the property text and which earlier ideas to avoid), own scratch worktree"}
 json.dump(meta, open(os.path.join(dst, "meta.json"), "w"), indent=1)
-wt = {"agent3": f"/tmp/wt3-{prop}", "agent4": f"/tmp/wt4-{prop}", "agent5": f"/tmp/wt5-{prop}", "agent6": f"/tmp/wt6-{prop}"}.get(tag, f"/tmp/wt-{prop}")
+wt = {"agent3": f"/tmp/wt3-{prop}", "agent4": f"/tmp/wt4-{prop}", "agent5": f"/tmp/wt5-{prop}", "agent6": f"/tmp/wt6-{prop}", "agent7": f"/tmp/wt7-{prop}", "agent8": f"/tmp/wt8-{prop}"}.get(tag, f"/tmp/wt-{prop}")
 if os.path.isdir(wt):
     subprocess.run(["git", "-C", "/repo", "worktree", "remove", "--force", wt])
 shutil.rmtree(src, ignore_errors=True)
